@@ -839,7 +839,7 @@ func runC07(w *World, r *Report) {
 			}
 		}
 		if n < 2 {
-			undecidedf("C07.inference-through-side-accessors: only %d inference stores found", n)
+			r.Deferred = append(r.Deferred, fmt.Sprintf("C07.inference-through-side-accessors: only %d inference stores found", n))
 		}
 	}
 	r.Rule("C07.nested-table-initialised-on-its-own-absence", "where package compose initialises a nested table (m[k] = make(map…)) under a comma-ok test, the test looks the SAME table up with the same key: a test of an entry one level further down (m[k][j]) replaces the whole inner table whenever a new j arrives — for the table of run-time edge checks that discards the checks on a node's other outgoing edges, and a wrongly typed value reaches the concretely typed node and panics instead of failing the ordinary check", 3)
@@ -883,7 +883,7 @@ func runC07(w *World, r *Report) {
 			})
 		}
 		if n < 3 {
-			undecidedf("C07.nested-table-initialised-on-its-own-absence: only %d guarded nested-table initialisations found in package compose", n)
+			r.Deferred = append(r.Deferred, fmt.Sprintf("C07.nested-table-initialised-on-its-own-absence: only %d guarded nested-table initialisations found in package compose", n))
 		}
 	}
 	r.Rule("C07.getters-pure", "no get… / is… / input… / output… method of the builder types (graph, graphNode, composableRunnable, genericHelper, Chain, Workflow) stores into its receiver: what they answer follows later type inference", 5)
@@ -907,7 +907,7 @@ func runC07(w *World, r *Report) {
 			}
 		}
 		if n < 5 {
-			undecidedf("C07.getters-pure: only %d getter methods found", n)
+			r.Deferred = append(r.Deferred, fmt.Sprintf("C07.getters-pure: only %d getter methods found", n))
 		}
 	}
 	// pass-through nodes: a state handler on a node whose own type is only inferred later must be typed `any` exactly
